@@ -107,6 +107,10 @@ type Pool struct {
 	taskQueue chan *Task
 	expanded  int32
 
+	// submitLock serialises submissions (read side) with closing taskQueue in Stop (write side),
+	// so that a task is never sent on the closed queue.
+	submitLock sync.RWMutex
+
 	state uint32 // 0: not start, 1: started, 2: stopped
 }
 
@@ -152,8 +156,12 @@ func (p *Pool) Stop() {
 		// cancel context
 		p.cancel()
 
-		// wait child workers
+		// wait for in-flight submissions (the cancelled context releases them), then close the queue
+		p.submitLock.Lock()
 		close(p.taskQueue)
+		p.submitLock.Unlock()
+
+		// wait child workers
 		p.wg.Wait()
 
 		// tasks still queued (the pool was never started): release their waiters
@@ -195,11 +203,33 @@ func (p *Pool) TryExecuteWithCtx(ctx context.Context, exec func(context.Context)
 	return
 }
 
+// refuse a task because the pool has been stopped.
+func (p *Pool) refuse(t *Task) {
+	err := p.ctx.Err()
+	if err == nil {
+		// Stop has changed the state but has not cancelled the context yet
+		err = context.Canceled
+	}
+	t.future <- &TaskResult{Err: err}
+}
+
+func (p *Pool) stopped() bool {
+	return atomic.LoadUint32(&p.state) == 2
+}
+
 // Do a task.
 func (p *Pool) Do(t *Task) {
 	if t != nil {
 		if t.ctx == nil {
 			t.ctx = p.ctx
+		}
+
+		p.submitLock.RLock()
+		defer p.submitLock.RUnlock()
+
+		if p.stopped() {
+			p.refuse(t)
+			return
 		}
 
 		if p.opt.ExpandableLimit == 0 {
@@ -240,6 +270,18 @@ func (p *Pool) TryDo(t *Task) (addedToQueue bool) {
 	if t != nil {
 		if t.ctx == nil {
 			t.ctx = p.ctx
+		}
+
+		// fails only while Stop holds or awaits the write side
+		if !p.submitLock.TryRLock() {
+			p.refuse(t)
+			return
+		}
+		defer p.submitLock.RUnlock()
+
+		if p.stopped() {
+			p.refuse(t)
+			return
 		}
 
 		select {
